@@ -352,6 +352,10 @@ def run(ctx):
         "--accept-nth is bound at Item.acceptNth + the parsed transformer (not through a tty)",
         "trailing-delimiter corner is CODE-DERIVED: a literal delimiter at the end of a line yields a final empty "
         "field, a regex delimiter does not (so -1 differs between --delimiter=, and --delimiter='[,]')"]
+    # ---------------------------------------------------------------- presentation of whole items under --with-nth
+    # (FzfItems.SearchText: field expressions and templates x delimiters x --ansi through the real binary)
+    from props import c10_items
+    ctx.cov["presentation_cases"] = c10_items.presentation_part(ctx)
     return "model_checking"
 
 
